@@ -88,7 +88,11 @@ def discharge(P, extra_hyps, goal, timeout_ms):
     if z3.is_false(g) and not extra_hyps:
         # the clause is false outright on this (feasible) path: any model of the path is a countermodel
         if _path_feasible(P):
-            return "refuted", time.time() - t0, model_dict(P.solver.model()), "simplifier+z3(path model)"
+            try:
+                mdl = model_dict(P.solver.model())
+            except z3.Z3Exception:          # feasibility was settled earlier (or by the ground-run rule): no model at hand
+                mdl = {}
+            return "refuted", time.time() - t0, mdl, "simplifier+z3(path model)"
         return "unknown", time.time() - t0, None, "path feasibility undecided"
     if len(P.axioms) + len(P.assumes) + len(P.pc) > SLICE_THRESHOLD:
         return _discharge_sliced(P, extra_hyps, goal, timeout_ms, t0)
